@@ -180,12 +180,12 @@ PROPS = {
     },
     "C11": {
         "obligation_files": ["Properties/C11.v"],
-        "model_files": ['Model/Caveat.v', 'Model/Msgpack.v', 'Model/Codec.v', 'Model/TypedDec.v', 'Model/TypedDec2.v', 'Generated/Facts.v', 'Corr/Transport.v', 'Corr/RunM.v'],
+        "model_files": ['Model/Caveat.v', 'Model/Msgpack.v', 'Model/Codec.v', 'Model/TypedDec.v', 'Model/TypedDec2.v', 'Model/TokenDec.v', 'Generated/Facts.v', 'Corr/Transport.v', 'Corr/RunM.v'],
         "rule": "stream typed2: the same for the twelve non-scalar types, unregistered caveats and whole sets (case kinds KDecBody2 / KDecSet, model dec_body2 / dec_set_typed): unsorted and duplicate map keys, str and bin and nil keys, nil in place of each field and of the whole body, map- vs array-encoded structs with repeated and unknown field names, ext headers in front of maps, nested sets 0-4 deep with registered, unregistered and undecodable members, short and long arrays, wrong shapes - acceptance AND the re-encoding of the decoded value must agree exactly, both ways; oracles: the re-encoding decodes, is a fixed point, and decodes to an equal value; "
                 "stream typed: for every scalar-bodied caveat type, bodies in canonical and non-canonical form (every integer width incl. signed codes and negative values, nil for each field and for the whole body, str/bin interchange, arrays shorter and longer than the field count, map-encoded structs with known, unknown, repeated and non-string keys, wrong shapes, trailing bytes) fed to DecodeCaveats as 92 <type> <body>; the re-encoding of what the library decoded (or its refusal) is compared with the typed lenient decoder model dec_body; "
                 "stream codec: caveats of every registered type with fields on encoding boundaries (0, 127/128, 255/256, 65535/65536, 2^32-1/2^32, 2^63-1/2^63, 2^64-1; negative int64 boundaries; string/byte lengths 0,1,31,32,255,256; maps and slices of 0,1,15,16,17 entries; nil vs empty; nested conditionals; unregistered types with arbitrary msgpack bodies) - "
                 "MarshalMsgpack bytes compared with the model's encoder; whole sets and tokens (both nonce versions); frames the decoder sees (type + body bytes) on encoded sets; Decoder.Skip on well-formed, truncated, mutated and extended msgpack values; JSON round trip (msgpack of the result compared with the model's json_rt); the JSON type field: written for built-in types and for three user-defined types the harness registers at 2^48+7, 2^63+7 and 2^64-2, and read from names, decimal numerals on every width boundary, with leading zeros, out of range, and malformed numerals; "
-                "implementation-side oracles: encoding twice gives the same bytes, decode then re-encode reproduces the bytes, and three non-canonical re-encodings of every generated token (map-encoded structs + full-width ints, full-width ints, trailing bytes) decode to a value that re-encodes to the canonical bytes and verifies with the same verdict; non-trivial = all encode cases, skip cases the library accepts; tokens sent as maps whose field names repeat (decoy and genuine nonce in both orders, finalised and plain tails): the verdict is the same before and after re-encoding and the proof flag of an accepted token is the signed one; nil / empty key-ids round-trip",
+                "implementation-side oracles: encoding twice gives the same bytes, decode then re-encode reproduces the bytes, and three non-canonical re-encodings of every generated token (map-encoded structs + full-width ints, full-width ints, trailing bytes) decode to a value that re-encodes to the canonical bytes and verifies with the same verdict; non-trivial = all encode cases, skip cases the library accepts; tokens sent as maps whose field names repeat (decoy and genuine nonce in both orders, finalised and plain tails): the verdict is the same before and after re-encoding and the proof flag of an accepted token is the signed one; nil / empty key-ids round-trip; stream token (case kind KDecTok, model dec_token_gen): ~930 (quick) / 16k (thorough) array and map forms of whole tokens of both nonce versions - reordered, unknown and repeated field names (decoy nonces of 2 and 3 fields first and last, repeated caveats / location / tail, nil values), str/bin variants, trailing bytes, truncations, wrong arities - acceptance and re-encoding compared exactly",
         "assumptions": ["partial: typed lenient decoding of individual fields (width variants, nil-for-zero, str/bin, map-encoded structs, 16/32-bit truncation) is modelled and proved for every caveat type and for whole sets (Model/TypedDec.v, Model/TypedDec2.v); not representable in the model's caveat type and therefore compared after normalisation: a nil versus an empty resource-set map (two library-canonical encodings, each a fixed point); which of two decoders msgpack caches for *CaveatSet depends on whether the process first encoded or first decoded a conditional caveat (model parameter pz, both variants compared)",
                         "encoding/json's text layer is trusted; text fields are ASCII in the generator (valid UTF-8 is a hypothesis of the property)"],
     },
